@@ -2,8 +2,8 @@
     Property theorems only: statements in full, each closed by lemmas proved in Saem/MStepProofs.v (model)
     and Saem/MStepTie.v (regenerated rules = model). *)
 From Coq Require Import ZArith QArith Qreals Reals Bool List.
-From Leaspy Require Import Base.QAux Saem.MStep Saem.MStepProofs Saem.MStepTie.
-From LeaspyGen Require Import GenC04.
+From Leaspy Require Import Base.QAux Saem.MStep Saem.MStepProofs Saem.MStepTie Saem.Resp Saem.RespProofs Saem.RespTie.
+From LeaspyGen Require Import GenC04 GenC04Resp.
 Import ListNotations.
 Local Open Scope Q_scope.
 
@@ -258,3 +258,61 @@ Print Assumptions C04_tie_update_trace.
 Theorem C04_tie_mix_std_unguarded : gen_mix_std_guarded = false /\ gen_mix_std_burn_guarded = false.
 Proof. exact tie_mix_std_unguarded. Qed.
 Print Assumptions C04_tie_mix_std_unguarded.
+
+(** * Extension: the cluster RESPONSIBILITIES inside the model (Saem/Resp.v, RespProofs.v, RespTie.v). *)
+Local Close Scope Q_scope.
+Local Open Scope R_scope.
+
+(** ** Each row of responsibilities — softmax over clusters of the per-cluster terms negated and clamped at -100 — is a
+    probability vector with strictly positive entries, whatever the (finite) terms. *)
+Theorem C04_resp_row_probability : forall terms : list R,
+  terms <> [] ->
+  length (resp_row terms) = length terms /\ Forall (fun p => 0 < p <= 1) (resp_row terms) /\ sumR (resp_row terms) = 1.
+Proof. exact resp_row_prob_vector. Qed.
+Print Assumptions C04_resp_row_probability.
+
+(** what the clamp buys: when no cluster's log-density [-t] exceeds [U], every responsibility is at least
+    [exp (-100 - U) / n_clusters], however unlikely the other clusters are *)
+Theorem C04_resp_floor : forall (terms : list R) (U : R),
+  terms <> [] -> clamp_min <= U -> Forall (fun t => - t <= U) terms ->
+  Forall (fun p => exp (clamp_min - U) / lenR terms <= p) (resp_row terms).
+Proof. exact resp_row_floor. Qed.
+Print Assumptions C04_resp_floor.
+
+Theorem C04_resp_example :
+  resp_row [0; 0] = [1 / 2; 1 / 2] /\ prob_vector 2 (resp_row [0; 0]) /\
+  Forall (fun p => exp (clamp_min - 0) / lenR [0; 800] <= p) (resp_row [0; 800]).
+Proof. exact resp_example. Qed.
+Print Assumptions C04_resp_example.
+
+(** ** Tie: the expression each of the five softmax sites of the running code is fed, the axis it normalises over, and
+    the row-wise reading of the traced expression *)
+Theorem C04_tie_resp :
+  (forall t : R, gen_resp_logit_probs t = logit t /\ gen_resp_logit_mean t = logit t /\ gen_resp_logit_mean_src t = logit t /\
+  gen_resp_logit_std t = logit t /\ gen_resp_logit_std_burn t = logit t) /\
+  gen_resp_softmax_axes = [AxCluster; AxCluster; AxCluster; AxCluster; AxCluster] /\
+  (forall terms : list R,
+     map (fun a => exp a / sumR (map exp (map gen_resp_logit_probs terms))) (map gen_resp_logit_probs terms) = resp_row terms).
+Proof. split; [exact tie_resp_logit | split; [exact tie_resp_axes | exact tie_resp_row]]. Qed.
+Print Assumptions C04_tie_resp.
+
+(** the traced mixture rules are the model's: probs = column sums / number of individuals; the mean (and its `sources`
+    branch) = sum of r * x over the sum of r; the std rules average r * s with s constant over individuals, s = the bare
+    square root of the plain rule's variance around the cluster's old mean (no guard) or the Bessel std of the state values *)
+Theorem C04_tie_mixture_rules :
+  (forall (nc : nat) (Rm : list (list R)),
+     probs_updateR nc Rm = map (fun c => gen_probs_rule (sumR (colR c Rm)) (lenR Rm)) (seq 0 nc)) /\
+  (forall w x : list R, sumR w <> 0 ->
+     wmeanR w x = Ok (gen_mix_mean_rule (sumR (map (fun p => gen_mix_mean_summand (fst p) (snd p)) (combine w x))) (sumR w)) /\
+  wmeanR w x = Ok (gen_mix_mean_src_rule (sumR (map (fun p => gen_mix_mean_src_summand (fst p) (snd p)) (combine w x))) (sumR w))) /\
+  (forall (r : R) (old_mean : Q) (S1 S2 : list Q),
+     gen_mix_std_summand r (Q2R old_mean) (Q2R (mean S1)) (Q2R (mean S2)) = r * sqrt (Q2R (ind_var_saem old_mean S1 S2))) /\
+  (forall (w : list R) (s : R), sumR w <> 0 ->
+     gen_mix_std_rule (sumR (map (fun r => r * s) w)) (sumR w) = s /\
+  gen_mix_std_burn_rule (sumR (map (fun r => gen_mix_std_burn_summand r s) w)) (sumR w) = s) /\
+  gen_mix_std_burn_correction = gen_burn_in_correction.
+Proof.
+  split; [exact tie_probs_rule|]. split; [exact tie_mix_mean|]. split; [exact tie_mix_std_summand|].
+  split; [exact tie_mix_std_rule | exact tie_mix_std_burn_correction].
+Qed.
+Print Assumptions C04_tie_mixture_rules.
